@@ -246,8 +246,29 @@ def judge_owner(prog, fn, stmt, owner):
             return 'undecided', 'statement not in the CFG'
         if cfg.block_postdominates(p[0], cfg.entry):
             return 'ok', 'stored into %s owner %s on every path of %s' % (v['kind'], v['name'], fn.g)
+        # a path that skips the store under a test of the owner itself may be a correct "already installed" fast path: not decided here
+        gs = [c for (c, pol, _b) in cfg.guards_of(stmt) if ex.refs_var(c, owner)]
+        if gs:
+            return 'undecided', 'the store into owner %s is skipped under `%s`, a test of the owner itself (a cache of the installed limit?)' % (v['name'], gs[0].text(50))
         return 'violation', 'store into owner %s is skipped on some path of %s' % (v['name'], fn.g)
     return 'undecided', 'owner kind %s' % v['kind']
+
+
+def knob_sites_through_helpers(prog, main):
+    """[(knob call, helper function, call of the helper in main)] for helpers of the driver (functions with a body in the same program that
+    main calls) that call the knob"""
+    out = []
+    for hc in main.walk():
+        if hc.k == 'CallExpr' and hc.callee_id is not None and hc.callee and hc.callee['g'] != common.KNOB:
+            hf = prog.fn_of_fref(hc.callee_id)
+            if hf is None or hf.body is None or hf is main or hf.cfg is None:
+                continue
+            if not hf.file.startswith(env.REPO + '/src') and not hf.file.startswith(env.WITNESS):
+                continue
+            for k_ in hf.walk():
+                if ex.is_call(k_, common.KNOB):
+                    out.append((k_, hf, hc))
+    return out
 
 
 def r20b(rep, prog):
@@ -258,6 +279,10 @@ def r20b(rep, prog):
         n_mains += 1
         cfg = main.cfg
         knobs = [n for n in main.walk() if ex.is_call(n, common.KNOB)]
+        sites = [(k_, main, k_) for k_ in knobs]
+        if not knobs:
+            sites = knob_sites_through_helpers(prog, main)
+            knobs = [k_ for (k_, _f, _a) in sites]
         tbbs = [n for n in main.walk() if n.k == 'CallExpr' and n.callee and TBB_ENTRY.match(n.callee['g'])]
         if not tbbs:
             rep.info('R20b', main.body, main, 'main declares "cores" but calls no *_tbb entry point', '')
@@ -271,16 +296,19 @@ def r20b(rep, prog):
         for t in tbbs:
             g = {(c.i, pol) for (c, pol, _b) in cfg.guards_of(t)}
             tg = g if tg is None else (tg & g)
-        for kcall in knobs:
+        for (kcall, kfn, anchor) in sites:
             what = 'knob call precedes every *_tbb call and depends only on options cores/parallel'
             problems = []
             und = []
             for t in tbbs:
-                if not cfg.reaches(kcall, t):
+                if not cfg.reaches(anchor, t):
                     problems.append('%s at line %d is not reachable from the knob call' % (t.callee['name'], t.line))
-                if cfg.reaches(t, kcall):
+                if cfg.reaches(t, anchor):
                     problems.append('knob call is reachable from %s at line %d (too late)' % (t.callee['name'], t.line))
-            rel = [(c, pol) for (c, pol, _b) in cfg.guards_of(kcall) if (c.i, pol) not in tg]
+            rel = [(c, pol) for (c, pol, _b) in cfg.guards_of(anchor) if (c.i, pol) not in tg]
+            if kfn is not main:
+                # the knob sits in a helper of the driver: the conditions inside the helper count as well
+                rel += [(c, pol) for (c, pol, _b) in kfn.cfg.guards_of(kcall)]
             atoms = []
             for (c, pol) in rel:
                 f = ex.formula(c, lambda leaf: _atom(leaf))
@@ -309,23 +337,24 @@ def r20b(rep, prog):
                 rep.ok('R20c', kcall, main, whatv, 'option value passed directly')
             elif xv is None:
                 rep.undecided('R20c', kcall, main, whatv, 'argument `%s` is not a variable' % (arg.text(30) if arg is not None else '?'))
-            elif knob_value_cases(main, arg) is not None and len(ex.assignments_to(main, xv)) == 1:
-                cases = knob_value_cases(main, arg)
+            elif knob_value_cases(kfn, arg) is not None and len(ex.assignments_to(kfn, xv)) == 1:
+                cases = knob_value_cases(kfn, arg)
                 if cases['nonzero'] == 'req':
                     rep.ok('R20c', kcall, main, whatv, 'for a non-zero --cores the argument is the requested value')
                 else:
                     rep.violation('R20c', kcall, main, whatv, 'for a non-zero --cores the argument evaluates to `%s`, not the requested value' % cases['nonzero'].text(40),
                                   key='R20c|%s|value' % os.path.basename(prog.tu))
             else:
-                defs = ex.assignments_to(main, xv)
+                defs = ex.assignments_to(kfn, xv)
                 from_opt = [d for (d, rhs) in defs if rhs is not None and common.option_atom(rhs) == ('opt', 'cores')]
                 vprobs = []
+                cfg_k = kfn.cfg
                 if not from_opt:
                     vprobs.append('the variable is never assigned from vm["cores"]')
                 for (d, rhs) in defs:
                     if d in from_opt:
                         continue
-                    if not cfg.reaches(d, kcall):
+                    if not cfg_k.reaches(d, kcall):
                         continue
 
                     def zatom(leaf):
@@ -338,7 +367,7 @@ def r20b(rep, prog):
                             return ex.f_atom('zero')
                         return None
                     from .c10 import guards_formula, implies
-                    g = guards_formula(cfg, d, zatom)
+                    g = guards_formula(cfg_k, d, zatom)
                     if 'zero' in ex.f_atoms(g) and implies(g, ex.f_atom('zero')):
                         continue
                     vprobs.append('`%s` (line %d) replaces the requested value also when it is not 0' % (d.text(50), d.line))
@@ -427,9 +456,12 @@ def knob_value_cases(main, arg, depth=0):
 def knob_zero(rep, prog, main, rule):
     """R11d: --cores=0 (the documented "use all cores") never reaches the knob as 0."""
     from .c10 import guards_formula, implies
-    cfg = main.cfg
     n = 0
-    for kcall in [x for x in main.walk() if ex.is_call(x, common.KNOB)]:
+    direct = [(x, main) for x in main.walk() if ex.is_call(x, common.KNOB)]
+    if not direct:
+        direct = [(k_, f_) for (k_, f_, _a) in knob_sites_through_helpers(prog, main)]
+    for (kcall, main) in direct:
+        cfg = main.cfg
         n += 1
         what = 'the value 0 of --cores never reaches set_global_tbb_concurrency (it is translated to a positive thread count first)'
         arg = kcall.args()[0] if kcall.args() else None
